@@ -23,7 +23,7 @@ EXCS = ["KeyError", "IndexError", "ValueError", "RuntimeError", "Boom"]
 
 # ----------------------------------------------------------------------------- model checking
 def mc_all(ctx):
-    """The five RoutingMC configurations, run concurrently (they are independent), booked through ctx.mc."""
+    """The five RoutingMC configurations and FatTreeNetMC, run concurrently (they are independent), booked through ctx.mc."""
     big = not ctx.quick
     acts = {
         "demux": ("EnvPut", "DoDeliver", "DoReturn"),
@@ -42,9 +42,13 @@ def mc_all(ctx):
         if big and name == "hublive":
             text = text.replace("MaxOuts = 3", "MaxOuts = 4")
         cfgs[name] = text
+    module = {n: "RoutingMC" for n in cfgs}
+    acts["net"] = ("NetArrive",)
+    cfgs["net"] = open(tlc.SPEC + "/net/FatTreeNetMC.cfg").read()
+    module["net"] = "FatTreeNetMC"
     workers = 3 if ctx.quick else 6
     with ThreadPoolExecutor(max_workers=len(cfgs)) as ex:
-        futs = {n: ex.submit(tlc.run, "RoutingMC", c, tlc.SPEC + "/net", workers=workers, timeout=3000)
+        futs = {n: ex.submit(tlc.run, module[n], c, tlc.SPEC + "/net", workers=workers, timeout=3000)
                 for n, c in cfgs.items()}
         raw = {}
         for n, f in futs.items():
@@ -54,7 +58,7 @@ def mc_all(ctx):
     try:
         for n in cfgs:
             tlc.run = lambda *a, _r=raw[n], **k: _r          # bookkeeping + vacuity rules of ctx.mc on the finished run
-            out[n] = ctx.mc("RoutingMC", cfgs[n], "net", required_actions=acts[n], label="RoutingMC/" + n)
+            out[n] = ctx.mc(module[n], cfgs[n], "net", required_actions=acts[n], label=module[n] + "/" + n)
     finally:
         tlc.run = real_run
     return out
